@@ -40,4 +40,78 @@ theorem reset_restores_chain_state :
     ctx_reset_chain = ["_1.handlers = nil", "_1.index = -1", "_1.aborted = false"] ∧
     Rivaas.Chain.init.idx = -1 ∧ Rivaas.Chain.init.aborted = false ∧ Rivaas.Chain.PCtx.reset.aborted = false := by decide
 
+
+/-! ### composition glue: the order in which the handler slices are put together (`Model/Compose.lean`) -/
+
+/-- `App.registerRoute`: `WithBefore` handlers, the handler, `WithAfter` handlers, each wrapped once (`Op.aroute`) -/
+theorem app_route_before_handler_after :
+    app_registerRoute =
+      ["_1 := make([]router.HandlerFunc, 0, len(_2.before)+1+len(_2.after))",
+       "range _2.before {", "_1 = append(_1, _3.wrapHandler(_4))", "}",
+       "_1 = append(_1, _3.wrapHandler(_5))",
+       "range _2.after {", "_1 = append(_1, _3.wrapHandler(_4))", "}"] := by decide
+
+/-- `wrapHandler` is transparent for the chain: it calls the app handler exactly once; its only deferred work is the
+    hand-back of the pooled app context -/
+theorem app_wrap_is_transparent : app_wrapHandler = ["defer {", "}", "_1(_2)"] := by decide
+
+/-- app groups and app version groups: group middleware, before, handler, after — into a fresh slice -/
+theorem app_group_route_order :
+    app_group_addRoute =
+      ["_1 := make([]route.Handler, 0, len(_2.middleware)+len(_3.before)+1+len(_3.after))",
+       "range _2.middleware {", "_1 = append(_1, _2.app.wrapHandler(_4))", "}",
+       "range _3.before {", "_1 = append(_1, _2.app.wrapHandler(_5))", "}",
+       "_1 = append(_1, _2.app.wrapHandler(_6))",
+       "range _3.after {", "_1 = append(_1, _2.app.wrapHandler(_5))", "}"] ∧
+    app_vgroup_addRoute =
+      ["_1 := make([]router.HandlerFunc, 0, len(_2.middleware)+len(_3.before)+1+len(_3.after))",
+       "range _2.middleware {", "_1 = append(_1, _2.app.wrapHandler(_4))", "}",
+       "range _3.before {", "_1 = append(_1, _2.app.wrapHandler(_5))", "}",
+       "_1 = append(_1, _2.app.wrapHandler(_6))",
+       "range _3.after {", "_1 = append(_1, _2.app.wrapHandler(_5))", "}"] := by decide
+
+/-- nested groups copy the parent's middleware into a fresh slice and append their own (no aliasing: K02 and the
+    `Group.Group` mutation); `App.Group` copies its variadic slice (the K02 fix); `Use` appends in place -/
+theorem groups_copy_then_append :
+    app_group_Group = ["_1 := make([]HandlerFunc, 0, len(_2.middleware)+len(_3))", "_1 = append(_1, _2.middleware...)",
+                       "_1 = append(_1, _3...)"] ∧
+    route_group_Group = ["_1 := make([]Handler, 0, len(_2.middleware)+len(_3))", "_1 = append(_1, _2.middleware...)",
+                         "_1 = append(_1, _3...)"] ∧
+    app_App_Group = ["_1 := make([]HandlerFunc, len(_2))", "copy(_1, _2)"] ∧
+    app_group_Use = ["_1.middleware = append(_1.middleware, _2...)"] ∧
+    route_group_Use = ["_1.middleware = append(_1.middleware, _2...)"] ∧
+    router_Use = ["_1.middleware = append(_1.middleware, _2...)"] := by decide
+
+/-- a route's chain: router-global middleware as of registration, then its own handlers (`RegisterRoute`); a group
+    route: group middleware, then the handlers; a version-group route likewise — always a fresh slice -/
+theorem route_chain_order :
+    route_RegisterRoute.take 4 =
+      ["_1 := _2.registrar.GetGlobalMiddleware()", "_3 := make([]Handler, 0, len(_1)+len(_2.handlers))",
+       "_3 = append(_3, _1...)", "_3 = append(_3, _2.handlers...)"] ∧
+    route_group_addRoute = ["_1 := make([]Handler, 0, len(_2.middleware)+len(_3))", "_1 = append(_1, _2.middleware...)",
+                            "_1 = append(_1, _3...)"] ∧
+    router_vgroup_Handle = ["_1 := make([]HandlerFunc, 0, len(_2.middleware)+len(_3))", "_1 = append(_1, _2.middleware...)",
+                            "_1 = append(_1, _3...)"] := by decide
+
+/-- `Mount`: the parent's middleware (only with `InheritMiddleware`), the sub-router's middleware, the `WithMiddleware`
+    extras, in this order; a mounted route = that chain, then the route's own handlers (`Op.mount`) -/
+theorem mount_chain_order :
+    router_Mount =
+      ["if _1.InheritMiddleware {", "_2 = make([]HandlerFunc, 0, len(_3.middleware))", "_2 = append(_2, _3.middleware...)", "}",
+       "_2 = append(_2, _4.middleware...)",
+       "range _1.ExtraMiddleware {", "if _5 {", "_2 = append(_2, _6)", "}", "}",
+       "_3.mergeSubrouterRoutes(_7, _4, _2, _1.NamePrefix)"] ∧
+    router_mountRoute.take 8 =
+      ["_1 := make([]HandlerFunc, 0, len(_2)+len(_3))", "_1 = append(_1, _2...)",
+       "range _3 {", "if _4 {", "_1 = append(_1, _5)", "}", "}",
+       "_6 := _7.addRouteInternal(_8.Method(), _9, _1)"] := by decide
+
+/-- the tree path of `Mount` (sub-router warmed up earlier) prepends the mount chain to the node's registered slice —
+    which already starts with the sub-router's middleware: this is where finding K02b lives
+    (`warmed_mount_doubles_witness`); a repair changes this list -/
+theorem mount_tree_path_as_recorded :
+    router_extractAndMount.take 6 =
+      ["_1 := _2.handlers", "if len(_1) > 0 && _3 != \"\" {", "_4 := make([]HandlerFunc, 0, len(_5)+len(_1))",
+       "_4 = append(_4, _5...)", "_4 = append(_4, _1...)", "_6 := _7.addRouteInternal(_8, _9, _4)"] := by decide
+
 end Rivaas.Tie.C02Chain
